@@ -99,6 +99,7 @@ pub fn check(case: &Case, obs: &Obs) -> Verdict {
     let mut any_failure_closed = false;
     let mut any_stop_closed = false;
     let mut sessions_total = 0u64;
+    let mut survivor_shape = false;
     let mut events_total = 0u64;
 
     for (ri, r) in obs.remotes.iter().enumerate() {
@@ -367,6 +368,37 @@ pub fn check(case: &Case, obs: &Obs) -> Verdict {
                     );
                 }
             }
+            // ---- a remote is pruned (RemoteTimedOut) only when it has no links. An open link for which
+            // the runtime never had a reason to remove it (the remote never asked to unlink this lane, the
+            // lane neither failed nor closed, the remote was not dropped) is still in the registry, so the
+            // remote must not have been pruned; if it was, the link can never be closed with unlinked.
+            if r.reason.as_deref() == Some("Ok(RemoteTimedOut)")
+                && r.dropped_at.is_none()
+                && st.open
+                && !r.sent.iter().any(|(l, q, _, _)| l == name && *q == Req::Unlink)
+                && !lane.emissions.iter().any(|e| e.kind == EmKind::BadTag)
+                && lane.closed_at.is_none()
+            {
+                v.fail(
+                    psig("pruned-while-linked"),
+                    format!(
+                        "remote {} lane {}: the runtime timed the remote out as idle (RemoteTimedOut) although its link to this lane was open and nothing ever removed it (no unlink request, lane healthy): the link was never closed with unlinked; frames {:?}",
+                        ri, name, r.frames.iter().filter(|f| f.lane == name).map(|f| &f.kind).collect::<Vec<_>>()
+                    ),
+                );
+            }
+            // shape class: this remote kept an open link to a healthy lane while another lane it was
+            // linked to failed, and at least the prune delay passed afterwards with the agent running
+            if st.sessions > 0 && !lane.emissions.iter().any(|e| e.kind == EmKind::BadTag) && lane.closed_at.is_none() && !r.sent.iter().any(|(l, q, _, _)| l == name && *q == Req::Unlink) {
+                let other_failed_later = obs.bad_tag_flushed_ms.iter().any(|(bl, ms)| {
+                    LANE_NAMES[*bl] != name
+                        && r.frames.iter().any(|f| f.lane == LANE_NAMES[*bl] && f.kind == FrameKind::Linked)
+                        && obs.checkpoint_ms >= ms + case.params.prune_remote_delay_ms
+                });
+                if other_failed_later && r.dropped_at.is_none() {
+                    survivor_shape = true;
+                }
+            }
             // ---- agent stop closes every open link of a remote that is still reading
             // (a remote the runtime pruned or lost before the stop is no longer served: it had no links
             // left in the registry, whatever frames it had not read yet are gone with its channel)
@@ -480,6 +512,7 @@ pub fn check(case: &Case, obs: &Obs) -> Verdict {
     v.class_if(any_ghost, "unknown-lane-request");
     v.class_if(any_failure_closed, "lane-failure-with-sessions");
     v.class_if(any_stop_closed, "agent-stop-with-sessions");
+    v.class_if(survivor_shape, "link-survives-other-lane-failure-past-prune-delay");
     v.class_if(obs.stop_at.is_some(), "stop-trigger");
     v.class_if(obs.req_while_vote, "request-while-stop-vote-outstanding(model)");
     v.class_if(obs.coord_while_write_voted, "write-scheduled-while-write-task-voted(model)");
